@@ -8,8 +8,10 @@ package simrt
 import (
 	"container/heap"
 	"fmt"
+	"os"
 	"runtime/debug"
 	"sort"
+	"strconv"
 	"strings"
 )
 
@@ -147,6 +149,9 @@ type Sim struct {
 func NewSim(t *Tape, cfg Config) *Sim {
 	if cfg.StepCap == 0 {
 		cfg.StepCap = 1500000
+		if v, err := strconv.Atoi(os.Getenv("VERIF_STEPCAP")); err == nil && v > 0 {
+			cfg.StepCap = v // (diagnosis of step-cap cases only)
+		}
 	}
 	if cfg.ClockTick == 0 {
 		cfg.ClockTick = 1000
